@@ -29,7 +29,9 @@ ASSUMPTIONS = [
 
 OPEN = open_ids(ID)
 
-NAMES = ["inbox", "INBOX", "mb", "emp", "par", "par/child", "ph", "ph/kid", "gone", "gone/x", '"mb"', "Drafts", '"emp"', "par/"]
+NAMES = ["inbox", "INBOX", "mb", "emp", "par", "par/child", "ph", "ph/kid", "gone", "gone/x", '"mb"', "Drafts", '"emp"', "par/",
+         # names with a level that is just digits: inside an MH folder such a name looks like a message
+         "mb/2", "par/2024", "77", "new/1"]
 NUMS = ["0", "1", "2", "3", "4", "5", "9", "4294967295", "*"]
 
 
@@ -140,7 +142,12 @@ def step(draw):
     if k == 16:
         return {"op": "garbage", "s": s, "data": draw(st.sampled_from(["", " ", "hello", "* OK", "+ go", "a", "DONE", "\x00\x01", "(((", "NOOP"]))}
     if k == 17:
-        return {"op": "restart"}
+        if draw(st.booleans()):
+            return {"op": "restart"}
+        # two sessions send a command at the same instant: the second one queues behind / races the first
+        # (seeded/C06-2: a command the management task holds while the mailbox is shut down by a DELETE)
+        pair_first = draw(st.sampled_from(["DELETE mb", "DELETE emp", "DELETE par/child", "RENAME mb mb2", "EXPUNGE", "CLOSE", "DELETE gone"]))
+        return {"op": "pair", "line": pair_first, "line2": draw(command_line()), "gap": draw(st.integers(0, 3))}
     if k == 18:
         return {"op": "cmd", "s": s, "line": "SELECT " + draw(st.sampled_from(["inbox", "mb", "emp", "par/child"]))}
     return {"op": "cmd", "s": s, "line": "LOGOUT"}
@@ -276,6 +283,24 @@ def execute(trace) -> CaseResult:
                 sessions.clear()
                 transcript.append({"op": "restart"})
                 res.labels.append("restart")
+                continue
+            if op == "pair":
+                import asyncio
+
+                sa, sb = get("a"), get("b")
+                if sa.idle_tag or sb.idle_tag:
+                    continue
+
+                async def second():
+                    if st_["gap"]:
+                        await asyncio.sleep(st_["gap"] * 0.001)
+                    return await check_cmd(sb, st_["line2"])
+
+                await asyncio.gather(check_cmd(sa, st_["line"]), second())
+                res.labels.append("pair")
+                for nm_, ss_ in (("a", sa), ("b", sb)):
+                    if not ss_.alive:
+                        sessions.pop(nm_, None)
                 continue
             s = get(st_["s"])
             if op == "cmd":
